@@ -337,7 +337,8 @@ impl FixtureDatabase {
                 };
 
                 // Parse the AST
-                let Some(parsed) = self.get_parsed_ast(file_path, &content) else {
+                // (for a document whose buffer does not parse: its last valid version)
+                let Some(parsed) = self.get_parsed_ast_or_last_valid(file_path, &content) else {
                     continue;
                 };
 
